@@ -180,7 +180,7 @@ def check_pair(ctx, spec, src, run, acc):
 def run_case(ctx, case, rng):
   seen = False
   for spec, src, datasets, lab, run, acc in common.graph_workload(
-      ctx, case, rng, safe_regex=True, cfg_pool=list(recipes.CFGS), n_random=3, star_p=0.35):
+      ctx, case, rng, safe_regex=True, cfg_pool=list(recipes.CFGS) + ['fp16'] * 3, n_random=3, star_p=0.35):
     seen = True
     if run.exc is not None:
       continue
